@@ -205,6 +205,37 @@ func runC06(seed int64, n int, dir string, tier string) *Report {
 	for _, nm := range nearMiss {
 		probe("near-miss", []byte(nm.s), nm.want, true)
 	}
+	// every combination of the three members over both families' version strings: a format is
+	// reported only when the declaration states it (a CycloneDX document with a known specVersion;
+	// otherwise a document with a known spdxVersion), never through the other family's spelling
+	boms := []string{"-", "CycloneDX", "cyclonedx", "CYCLONEDX", "Cyclone", ""}
+	vers := []string{"-", "1.3", "1.4", "1.5", "1.2", "1.6", "SPDX-2.2", "SPDX-2.3", "SPDX-2.1", "2.3", ""}
+	cdxWant := map[string]formats.Format{"1.3": formats.CDX13JSON, "1.4": formats.CDX14JSON, "1.5": formats.CDX15JSON}
+	spdxWant := map[string]formats.Format{"SPDX-2.2": formats.SPDX22JSON, "SPDX-2.3": formats.SPDX23JSON}
+	for _, b := range boms {
+		for _, sv := range vers {
+			for _, xv := range vers {
+				var members []string
+				if b != "-" {
+					members = append(members, fmt.Sprintf("%q:%q", "bomFormat", b))
+				}
+				if sv != "-" {
+					members = append(members, fmt.Sprintf("%q:%q", "specVersion", sv))
+				}
+				if xv != "-" {
+					members = append(members, fmt.Sprintf("%q:%q", "spdxVersion", xv))
+				}
+				g.R.Shuffle(len(members), func(i, j int) { members[i], members[j] = members[j], members[i] })
+				want := formats.Format("")
+				if strings.EqualFold(b, "CycloneDX") && b != "-" {
+					want = cdxWant[sv]
+				} else {
+					want = spdxWant[xv]
+				}
+				probe("declaration-grid", []byte("{"+strings.Join(members, ",")+"}"), want, true)
+			}
+		}
+	}
 	for i := 0; i < n; i++ {
 		// random small texts built from fragments
 		frags := []string{"SPDXVersion:", " SPDX-2.3", " SPDX-2.2", "\n", "\"SPDX-2.3\"", "{", "}", "\"spdxVersion\":", "\"bomFormat\":\"CycloneDX\"", ",", "\"specVersion\":\"1.4\"", " ", "x", "'SPDX-2.2'"}
